@@ -562,6 +562,11 @@ pub fn run(ctx: &Ctx, rep: &mut Report) {
                 _ => {}
             }
         }
+        // two lazy-SMP workers on the shared table under the interpreter (data-race and weak-memory detection)
+        let s = crate::scenario::Step::new("8/8/8/4k3/8/4K3/4P3/8 w - - 0 1", 2, 2, ctx.seed);
+        let sc = crate::scenario::Scenario { tables: 1, buckets: 2, hasher_seed: 3, steps: vec![s] };
+        sync_scenario(&sc, &ev, ctx, rep);
+        rep.count("miri_two_worker_searches", 1);
         return;
     }
     if ctx.mode == "quiescence" {
